@@ -162,6 +162,40 @@ pub fn gen_fuzz_input(r: &mut Rng) -> String {
     }
 }
 
+/// Deterministic part of the corpus: words of every byte length 1..=131 (+ the width of the last
+/// character) whose last character is a 2-, 3- or 4-byte Unicode letter, so that every byte offset
+/// up to 130 falls inside a multi-byte character in some input; in mnemonic, register, immediate
+/// and label position, alone and after a valid instruction.  Plus digit strings of every length
+/// 1..=45 made of '9', of '1' followed by zeros, and of 'f' (hex), in immediate and offset position.
+pub fn systematic_inputs() -> Vec<String> {
+    let mut v = Vec::new();
+    for n in 0..=130usize {
+        for ch in ['\u{e9}', '\u{4e2d}', '\u{1d400}'] {
+            let w: String = "a".repeat(n) + &ch.to_string();
+            v.push(w.clone());
+            v.push(format!("{w}bbbbb r1, 2"));
+            v.push(format!("exit\n{w}"));
+            v.push(format!("mov {w}, 1"));
+            v.push(format!("mov r1, {w}"));
+            v.push(format!("ja {w}"));
+        }
+    }
+    for n in 1..=45usize {
+        for (pre, d0, d) in [("", '9', '9'), ("", '1', '0'), ("-", '9', '9'), ("0x", 'f', 'f'), ("-0x", '1', '0'), ("", '0', '1')] {
+            let lit: String = pre.to_string() + &d0.to_string() + &d.to_string().repeat(n - 1);
+            v.push(format!("mov r1, {lit}"));
+            v.push(format!("lddw r1, {lit}"));
+            v.push(format!("ja {lit}"));
+            v.push(format!("call {lit}"));
+            let signed = if lit.starts_with('-') { lit.clone() } else { format!("+{lit}") };
+            v.push(format!("ldxw r1, [r2{signed}]"));
+            v.push(format!("stw [r2{signed}], {lit}"));
+            v.push(format!("mov r{lit}, 1"));
+        }
+    }
+    v
+}
+
 pub fn run_fuzz(input: &Value) -> Value {
     let text = input.as_str().unwrap();
     let a = asm(text);
